@@ -15,6 +15,14 @@ PROPS = {
              "exactly on dyadic rationals. What the statement leaves open is 'ood' in the specification and not judged. Bounded, seeded exploration of programs x "
              "inputs with a model-checked reference: model checking of the reference plus conformance of the implementation.",
         note=_TRUST + "Programs are bounded in size; floats are exact dyadic rationals (no rounding behaviour is checked); integers beyond 2^30 are out of the checked domain."),
+    "C03": dict(
+        claimed=True, level="model_checking",
+        technique="refinement check against the TLA+ semantics NslSem (FrameIsolation / CallDiscipline as TLC action properties on every behaviour) plus trace check of the real VM: activation sequence recorded by the VM hook compared with the prescribed one, caller frame compared across every call return",
+        text="Call-heavy programs (deterministic family over parameter types, mutation forms, recursion shapes, overload orders; plus seeded random programs) are run by "
+             "NslSem inside TLC, which prescribes the result and the sequence of activations (callee selected by NslTypes!Best, arguments converted to parameter types); "
+             "the real VM runs with the call tracer, whose events are checked against that sequence, and the caller's arguments and named locals are compared "
+             "before and after every call - the specification's FrameIsolation property evaluated on the implementation's own states.",
+        note=_TRUST + "The VM hook (nsl/VM.py, NSL_VERIF=1) supplies enter/step/leave events; array/struct parameters written by a callee are outside the statement."),
     "C08": dict(
         claimed=True, level="model_checking",
         technique="TLA+ operator-precedence machine (NslParse) enumerated exhaustively by TLC; every enumerated case replayed into the real parser/compiler/VM (spec->code conformance)",
